@@ -14,6 +14,8 @@ Decided:
     link of the descriptor being released (shape rule shared with C03.E6), so descriptors of in-flight requests are not reissued.
  K6 capacity = capacity_low | capacity_high << 32 read at config offsets 0 and 4 (wrapping in read_consistent is C13.G3);
     read-only flag and flush gating are C08.H4.
+ K8 descriptor flags exactly extra|direction for every previous slot content (C01.F1).  K9 refused polls change nothing,
+    a successful poll consumes the head of the used ring (C03.E1/E2).  K10 capacity table (C03.E3).
 Not decided: data integrity and matching of out-of-order completions over histories (delegated to the queue properties).
 """
 from .common import *
